@@ -10,12 +10,12 @@ SERVER = "aioftp.server"
 def ac_state(u, hint="ac"):
     """an AvailableConnections object in an arbitrary state satisfying its class invariant:
     value is None <=> maximum_value is None;  0 <= value <= maximum_value otherwise"""
+    from pyvc.interp import LazyLinked, LazyOpt
+
     cls = u.cls(SERVER, "AvailableConnections")
-    if u.choose(2, hint + "-unlimited") == 1:
-        return u.new(cls, value=None, maximum_value=None)
-    v, m = u.int(hint + "_value"), u.int(hint + "_max")
-    u.assume(z3.And(v.t >= 0, v.t <= m.t))
-    return u.new(cls, value=v, maximum_value=m)
+    m = u.int(hint + "_max")
+    v = LazyOpt(u.it, "int", hint + "_value", constraint=lambda x: z3.And(x.t >= 0, x.t <= m.t))
+    return u.new(cls, value=v, maximum_value=LazyLinked(v, m))
 
 
 AC_INV = "self.value is None and self.maximum_value is None or (self.value is not None and self.maximum_value is not None and 0 <= self.value <= self.maximum_value)"
@@ -43,7 +43,7 @@ c = contract(SERVER, "AvailableConnections.acquire", props=["C10"])
 c.setup = _setup_method("acquire")
 c.requires(AC_INV, "inv")
 c.old("value", "self.value")
-c.modifies = lambda S: [(S.self, "value", "int")] if S.self.fields["value"] is not None else []
+c.modifies = lambda S: [(S.self, "value", "int")] if S.it.unbox(S.self.fields["value"]) is not None else []
 # the slot is taken iff one was free; the counter never goes below 0 on a normal return
 c.ensures("self.value is None if old_value is None else (old_value > 0 and self.value == old_value - 1)", "takes-exactly-one")
 c.ensures(AC_INV, "inv")
@@ -59,7 +59,7 @@ c.setup = _setup_method("release")
 c.requires(AC_INV, "inv")
 c.old("value", "self.value")
 c.old("max", "self.maximum_value")
-c.modifies = lambda S: [(S.self, "value", "int")] if S.self.fields["value"] is not None else []
+c.modifies = lambda S: [(S.self, "value", "int")] if S.it.unbox(S.self.fields["value"]) is not None else []
 c.ensures("self.value is None if old_value is None else (old_value < old_max and self.value == old_value + 1)", "returns-exactly-one")
 c.ensures(AC_INV, "inv")
 c.raises_("ValueError", "old_value is not None and old_value == old_max", "only-when-nothing-taken")
